@@ -434,6 +434,9 @@ func init() {
 							wid, e = t.tok.ToSealedWriter(wr, t.priv.priv)
 							return e
 						})
+						if werr != nil && sk.mayFail {
+							continue // refused: fine
+						}
 						if werr != nil {
 							rep.violation(map[string]any{"api": "ToSealedWriter", "writer": sk.name, "token": t.typ + "/" + t.alg}, "success", werr.Error(), "ToSealedWriter fails on a healthy writer")
 						} else if !bytes.Equal(wid.Bytes(), manualCid(got)) {
